@@ -23,6 +23,23 @@ def main():
         keep.append([object() for _ in range(rng.randrange(0, 4000))])
         if rng.random() < 0.5:
             keep.pop(rng.randrange(len(keep)))
+        if prog.get("module"):
+            # a whole module from /repo's tests/error: executing it raises the expected error
+            try:
+                feed.load(prog["src"], prelude="")
+                out.append({"kind": "module-ok"})
+            except Exception as ex:  # noqa: BLE001
+                d = getattr(ex, "error", None)
+                if d is not None:
+                    try:
+                        r = DiagnosticsRenderer(DEF_STORE.sources)
+                        r.render_diagnostic(d)
+                        out.append({"kind": "diag", "text": "\n".join(r.buffer)})
+                    except Exception as ex2:  # noqa: BLE001
+                        out.append({"kind": "render-exc", "text": type(ex2).__name__})
+                else:
+                    out.append({"kind": "exc", "text": type(ex).__name__ + ": " + str(ex)[:300]})
+            continue
         try:
             m = feed.load(prog["src"], prelude=feed.PRELUDE + prog.get("prelude", ""))
             target = getattr(m, prog["target"])
